@@ -184,7 +184,7 @@ class FnTranslator(ExprMixin, CallMixin, StmtMixin):
 # ---------------------------------------------------------------------------------------------- driving
 def translate_function(reg, fn, node, cls=None, declared_ret=None):
     """fills fn.code / fn.ret / fn.monadic / fn.observers, or fn.unsupported"""
-    fn.source = "{}:{}".format(getattr(node, "_file", "?"), node.lineno)
+    fn.source = getattr(node, "_file", "?")      # no line number: an unrelated edit of the file must not touch the output
     is_init = fn.is_init
 
     def attempt(monadic):
